@@ -1115,6 +1115,18 @@ class Inliner:
                 n["rhs"] = e
                 return [n]
             return unwrap(s["rhs"]), K, False
+        if k == "OpCall" and s.get("op") == "=" and len(s.get("args", [])) == 2 and path(s["args"][0]) is not None:
+            rhs = s["args"][1]
+            inner = unwrap(rhs)
+            while isinstance(inner, dict) and inner.get("k") in ("Construct", "Cast") and (inner.get("copymove") or inner.get("k") == "Cast") and \
+                    (inner.get("args") or inner.get("e") is not None):
+                inner = unwrap(inner["args"][0] if inner.get("k") == "Construct" else inner.get("e"))
+            if is_call(inner):
+                def K(e, s=s):
+                    n = dict(s)
+                    n["args"] = [s["args"][0], e]
+                    return [n]
+                return unwrap(inner), K, False
         if k == "Return" and s.get("e") is not None and is_call(s["e"]):
             def K(e, s=s):
                 n = {"k": "Return", "l": s.get("l")}
